@@ -7,7 +7,8 @@
 //
 //   - same elements, same attribute names (namespace prefix included), same attribute values
 //     after collapsing whitespace runs inside the values;
-//   - same text with ALL whitespace removed ("the same non-whitespace text"), except inside
+//   - same text with ALL whitespace removed ("the same non-whitespace text"; whitespace is what
+//     HTML calls whitespace: space, tab, LF, FF, CR - U+00A0 and friends are content), except inside
 //     <pre> and <textarea> where the text must be exactly the same ("raw-text elements and <pre>
 //     content are not altered"), and inside <script>/<style> where the text must be exactly the
 //     same apart from whitespace at the two ends of the content (the placement of the content
@@ -33,8 +34,10 @@ import (
 	"path/filepath"
 	"regexp"
 	"sort"
+	"strconv"
 	"strings"
 	"testing"
+	"unicode"
 
 	"github.com/titpetric/vuego/formatter"
 	"golang.org/x/net/html"
@@ -61,9 +64,10 @@ const (
 	fQuirks   = "C19-doctype-quirks-parse"
 	fMustache = "C19-mustache-unescaped"
 	fCtxCR    = "C19-table-fragment-cr"
+	fNbsp     = "C19-nbsp-treated-as-whitespace"
 )
 
-var allFindings = []string{fQuote, fAmp, fBlank, fDocCase, fTextarea, fPreNL, fRawText, fNsAttr, fQuirks, fMustache, fCtxCR}
+var allFindings = []string{fQuote, fAmp, fBlank, fDocCase, fTextarea, fPreNL, fRawText, fNsAttr, fQuirks, fMustache, fCtxCR, fNbsp}
 
 // Case is one template source, split into the parts the statement talks about. The source
 // handed to Format is FrontMatter + Gap + Doctype + Body.
@@ -133,6 +137,9 @@ func walk(nodes []*html.Node, f func(*html.Node)) {
 // names carry their namespace prefix (xlink:href), and script/style text is trimmed at its ends.
 func normalise(nodes []*html.Node) []*hx.N {
 	walk(nodes, func(n *html.Node) {
+		if n.Type == html.TextNode {
+			n.Data = protectSpaces(n.Data)
+		}
 		if n.Type != html.ElementNode {
 			return
 		}
@@ -141,6 +148,7 @@ func normalise(nodes []*html.Node) []*hx.N {
 				n.Attr[i].Key = a.Namespace + ":" + a.Key
 				n.Attr[i].Namespace = ""
 			}
+			n.Attr[i].Val = protectSpaces(a.Val)
 		}
 	})
 	l := hx.Norm(nodes, hx.Strip, false)
@@ -165,6 +173,48 @@ func normalise(nodes []*html.Node) []*hx.N {
 	}
 	post(l)
 	return l
+}
+
+// hasWideSpace reports whether s contains a character that Unicode classes as white space but
+// HTML does not (U+00A0 no-break space, U+2003 em space, U+3000 ...). In HTML those are content:
+// they are not collapsed and &nbsp; is how templates write a space that must survive.
+func hasWideSpace(s string) bool {
+	for _, r := range s {
+		if r > 0x7f && unicode.IsSpace(r) {
+			return true
+		}
+	}
+	return false
+}
+
+// protectSpaces maps those characters into the private use area so that the whitespace
+// handling of the normal form (strings.Fields) leaves them alone.
+func protectSpaces(s string) string {
+	if !hasWideSpace(s) {
+		return s
+	}
+	return strings.Map(func(r rune) rune {
+		if r > 0x7f && unicode.IsSpace(r) {
+			return 0xE000 + r%0x1000
+		}
+		return r
+	}, s)
+}
+
+// readable undoes protectSpaces inside a failure message.
+func readable(msg string) string {
+	var sb strings.Builder
+	for _, r := range msg {
+		switch {
+		case r == 0xE0A0:
+			sb.WriteString("[U+00A0]")
+		case r >= 0xE000 && r < 0xF000:
+			sb.WriteString("[wide space]")
+		default:
+			sb.WriteRune(r)
+		}
+	}
+	return sb.String()
 }
 
 func collapse(s string) string { return strings.Join(strings.Fields(s), " ") }
@@ -263,7 +313,7 @@ func check(c Case) error {
 	mi, mo := mustaches(in), mustaches(out)
 	ni, no := normalise(in), normalise(out)
 	if d := hx.Diff(ni, no, hx.Options{AttrEq: attrEq}); d != "" {
-		return fmt.Errorf("meaning changed (input vs formatted, HTML5 parse): %s\n input:     %q\n formatted: %q", d, short(src), short(o1))
+		return fmt.Errorf("meaning changed (input vs formatted, HTML5 parse): %s\n input:     %q\n formatted: %q", readable(d), short(src), short(o1))
 	}
 	// (e) same mustache expressions
 	if strings.Join(mi, "\x00") != strings.Join(mo, "\x00") {
@@ -366,6 +416,9 @@ func regions(c Case) map[string]bool {
 				if a.Namespace != "" {
 					r[fNsAttr] = true
 				}
+				if hasWideSpace(a.Val) {
+					r[fNbsp] = true
+				}
 			}
 			if n.Namespace != "" {
 				return
@@ -390,6 +443,9 @@ func regions(c Case) map[string]bool {
 			}
 			if mustacheRisky(n.Data) {
 				r[fMustache] = true
+			}
+			if hasWideSpace(n.Data) && !inside(n, "pre", "textarea") {
+				r[fNbsp] = true
 			}
 		}
 	})
@@ -680,6 +736,9 @@ func classify(c Case) (bool, []string) {
 					if strings.Contains(v, "{{") {
 						add("attr-value:mustache")
 					}
+					if hasWideSpace(v) {
+						add("attr-value:nbsp")
+					}
 				}
 			case html.TextNode:
 				if n.Parent != nil && (n.Parent.Data == "script" || n.Parent.Data == "style") {
@@ -707,6 +766,9 @@ func classify(c Case) (bool, []string) {
 				}
 				if strings.ContainsAny(plain, `"'`) {
 					add("text:quote")
+				}
+				if hasWideSpace(plain) {
+					add("text:nbsp")
 				}
 			}
 		})
@@ -772,4 +834,30 @@ func TestProp(t *testing.T) {
 	run.Rapid(t, rec, "gen", g.genCase, classifyGen, check)
 }
 
-func TestReplay(t *testing.T) { run.ReplayMain(t, prop, replay) }
+// TestReplay replays a JSON replay file, or a corpus file written by the native fuzz engine
+// ("go test fuzz v1" followed by one string literal).
+func TestReplay(t *testing.T) {
+	path := os.Getenv("VERIF_REPLAY_FILE")
+	if b, err := os.ReadFile(path); path != "" && err == nil && strings.HasPrefix(string(b), "go test fuzz v1") {
+		lines := strings.SplitN(strings.TrimSpace(string(b)), "\n", 2)
+		lit := ""
+		if len(lines) == 2 {
+			lit = strings.TrimSuffix(strings.TrimPrefix(strings.TrimSpace(lines[1]), "string("), ")")
+		}
+		x, err := strconv.Unquote(lit)
+		if err != nil {
+			fmt.Printf("REPLAY-ERROR cannot decode fuzz corpus file %s: %v\n", path, err)
+			t.Fatalf("cannot decode %s: %v", path, err)
+		}
+		c := splitSource("fuzz", "", x)
+		if cerr := run.Safe(func() error { return check(c) }); cerr != nil {
+			fmt.Printf("FAILURE-DETAIL property=%s kind=fuzz %s\n", prop, strings.ReplaceAll(cerr.Error(), "\n", " ⏎ "))
+			fmt.Printf("VIOLATION property=%s replay=%s\n", prop, path)
+			t.Fail()
+			return
+		}
+		fmt.Printf("REPLAY-PASS property=%s replay=%s\n", prop, path)
+		return
+	}
+	run.ReplayMain(t, prop, replay)
+}
